@@ -33,9 +33,9 @@ def findings(pid, root):
         return [], str(e)
 
 
-def job(name):
+def job(name, sub="seeded"):
     from sa.selfval import make_copy, BIG
-    sd = VERIF / "seeded" / name
+    sd = VERIF / sub / name
     d = make_copy(REPO, touched=BIG, link_big=False)
     try:
         p = subprocess.run(["git", "apply", "--unsafe-paths", "-p1", "--directory", d, str(sd / "patch.diff")], cwd=d, stdout=subprocess.PIPE, stderr=subprocess.STDOUT, text=True)
@@ -49,6 +49,10 @@ def job(name):
         return name, out, None
     finally:
         shutil.rmtree(d, ignore_errors=True)
+
+
+def job_neutral(name):
+    return job(name, "neutral")
 
 
 def main():
@@ -80,6 +84,37 @@ def main():
             meta["analysis_broken_for"] = broken
             (VERIF / "seeded" / name / "meta.json").write_text(json.dumps(meta, indent=1))
     print(f"caught by the property's own check: {caught_own}/{len(results)}; by any check: {caught_any}/{len(results)}")
+    # behaviour-preserving refactorings: every check must stay silent (no new finding, no lost anchor)
+    nd = VERIF / "neutral"
+    if nd.is_dir():
+        nnames = sorted(p.name for p in nd.iterdir() if (p / "meta.json").is_file())
+        with ProcessPoolExecutor(max_workers=16) as ex:
+            nres = list(ex.map(job_neutral, nnames))
+        n_alarm = n_broken = 0
+        for name, out, err in nres:
+            meta = json.loads((nd / name / "meta.json").read_text())
+            if out is None:
+                print(f"{name}: {err}")
+                continue
+            alarms, broken, silent = {}, {}, []
+            for pid in PIDS:
+                keys, aerr = out[pid]
+                new = [k for k in keys if k not in base[pid][0]]
+                if new:
+                    alarms[pid] = [f"{k[0]} {k[1]}"[:110] for k in new[:3]]
+                elif aerr:
+                    broken[pid] = aerr[:110]
+                else:
+                    silent.append(pid)
+            n_alarm += bool(alarms)
+            n_broken += bool(broken)
+            print(f"{name}: FALSE-ALARMS={alarms if alarms else '-'}  analysis-broken={broken if broken else '-'}")
+            if update:
+                meta["silent"] = silent
+                meta["false_alarms"] = alarms
+                meta["analysis_broken"] = broken
+                (nd / name / "meta.json").write_text(json.dumps(meta, indent=1))
+        print(f"refactorings with a false alarm: {n_alarm}/{len(nres)}; with a lost anchor (exit 2): {n_broken}/{len(nres)}")
 
 
 if __name__ == "__main__":
